@@ -29,10 +29,13 @@ def confirm(name, wt, prop):
     res["demo_with_change"] = rc1
     rcs, os_ = sh("%s -m pytest -q -p no:cacheprovider -n 8 --timeout=900 2>&1 | tail -1" % PY, cwd=wt)
     res["suite_with_change"] = os_.strip()
-    sh("git stash", cwd=wt)
+    # worktrees of one repository share ONE stash stack (agents running in parallel raced on it): reverse-apply instead
+    rcr, _ = sh("git apply -R %s" % os.path.join(out, "patch.diff"), cwd=wt)
+    assert rcr == 0, "cannot reverse the change"
     rc0, o0 = sh("%s _out/demo.py" % PY, cwd=wt, env=env)
     res["demo_without_change"] = rc0
-    sh("git stash pop", cwd=wt)
+    rca, _ = sh("git apply %s" % os.path.join(out, "patch.diff"), cwd=wt)
+    assert rca == 0, "cannot re-apply the change"
     ok = rc1 != 0 and rc0 == 0 and "383 passed" in os_
     meta = {"name": name, "property": prop, "confirmed": ok, "confirmation": res, "demo_output_with_change": o1[-600:],
             "needs_to_manifest": "", "checks_run": {}}
